@@ -28,6 +28,7 @@ import (
 	"path/filepath"
 	"strconv"
 	"strings"
+	"time"
 
 	"github.com/jdillenkofer/pithos/internal/http/server"
 	"github.com/jdillenkofer/pithos/internal/http/server/authorization/lua"
@@ -472,6 +473,10 @@ func doStorage(ctx context.Context, st *stack, k kase, o *object, rec map[string
 
 // ---------------------------------------------------------------- main
 
+// 100000x the normal latency of one request; only decides between "answered"
+// and "hangs forever".
+const requestTimeout = 120 * time.Second
+
 func main() {
 	if len(os.Args) < 4 {
 		fmt.Fprintln(os.Stderr, "usage: rangeread <cases.ndjson> <trace.ndjson> <workdir>")
@@ -543,16 +548,40 @@ func main() {
 					"obj": k.Obj, "form": k.Form, "style": k.Style, "specs": k.Specs,
 					"api": api, "stack": sn, "parts": parts, "q": o.def.q,
 				}
-				if api == "http" {
-					doHTTP(handler, st, k, o, rec)
-				} else {
-					if k.Style != "plain" { // header spelling is irrelevant below HTTP
-						continue
+				if api == "storage" && k.Style != "plain" { // header spelling is irrelevant below HTTP
+					continue
+				}
+				// Watchdog: a request normally takes well under a millisecond.  If the
+				// real code does not answer within requestTimeout (a reader that never
+				// makes progress), that is logged as the observation status=-1 and the
+				// run stops (the stuck goroutine cannot be cancelled).
+				done := make(chan bool, 1)
+				go func() {
+					if api == "http" {
+						doHTTP(handler, st, k, o, rec)
+						done <- true
+					} else {
+						done <- doStorage(ctx, st, k, o, rec)
 					}
-					if !doStorage(ctx, st, k, o, rec) {
+				}()
+				select {
+				case ok := <-done:
+					if !ok {
 						skipped++
 						continue
 					}
+				case <-time.After(requestTimeout):
+					hung := map[string]any{
+						"obj": k.Obj, "form": k.Form, "style": k.Style, "specs": k.Specs,
+						"api": api, "stack": sn, "parts": parts, "q": o.def.q,
+						"hdr": headerText(k, o), "status": -1, "err": "no answer within " + requestTimeout.String(),
+						"shape": "none", "cl": -1, "blen": -1, "mp_ok": false, "full_match": false, "has_cr": false,
+						"out": []partObs{}, "opened": -1,
+					}
+					w.Emit(hung)
+					must(w.Close())
+					fmt.Printf("aborted: request did not return; cases=%d records=%d\n", len(cases), w.Count())
+					os.Exit(0)
 				}
 				w.Emit(rec)
 			}
